@@ -7,19 +7,35 @@ lengths, also far from optimal; every run-length encoding of the dynamic header;
 empty stored blocks between others; non-zero padding bits; a final empty block; all optional gzip header fields) — and
 the judge of the lines `c12 zinflate kind= data= want=`: zarrs' own `gzip` / `zlib` codecs must return `render tokens`
 (= `want`), and so must the model's reader (`Props/C12Deflate.lean` proves the latter; it is re-checked on every line).
+About a fifth of the gzip lines are FILES of 2..4 members (RFC 1952 §2.2; `want` = the members' data one after another,
+`Props/C12Gzip.lean`), a few are a valid file followed by bytes that are not a member (`want=none`: must be rejected).
 -/
 namespace Zarrs.DriverC12Deflate
 open Zarrs Zarrs.Inflate Zarrs.Proto Zarrs.DeflateSpec Zarrs.DriverC12
 
 /-! ### judge -/
 
+/-- gzip values are FILES (RFC 1952 §2.2: one or more members): judged with `gunzipAll`.  A line whose value is exactly
+    one member is judged with the one-member reader `gunzip` as well (`gunzipAll_one_member`: the two agree; re-checked).
+    `want=none`: the generator appended bytes that are not a member, the value is not a gzip file, the model must
+    reject it and so must zarrs (outcome `none`).  The judge is strict: model = want = zarrs. -/
+def readGzip (data : Bytes) : Except String (Option Bytes) :=
+  let all := gunzipAll data
+  match gunzipMember data with
+  | some (_, []) => if gunzip data == all then .ok all else .error "gunzip AND gunzipAll DISAGREE ON ONE MEMBER"
+  | _ => .ok all
+
 def handle (l : Line) : Option (List String) := do
   let data ← parseHex (← l.get "data")
-  let want ← parseHex (← l.get "want")
-  let r := if (← l.get "kind") == "gzip" then gunzip data else unzlib data
-  pure [match r with
-    | some d => if d == want then "val " ++ showHex d else "val " ++ showHex want ++ " (MODEL READER DISAGREES WITH render: " ++ showHex d ++ ")"
-    | none => "val " ++ showHex want ++ " (MODEL READER REJECTS)"]
+  let wantS ← l.get "want"
+  let want ← (if wantS == "none" then pure none else (parseHex wantS).map some)
+  let r : Except String (Option Bytes) := if (← l.get "kind") == "gzip" then readGzip data else .ok (unzlib data)
+  pure [match want, r with
+    | _, .error e => s!"({e})"
+    | some want, .ok (some d) => if d == want then "val " ++ showHex d else "val " ++ showHex want ++ " (MODEL READER DISAGREES WITH render: " ++ showHex d ++ ")"
+    | some want, .ok none => "val " ++ showHex want ++ " (MODEL READER REJECTS)"
+    | none, .ok none => "none"
+    | none, .ok (some d) => "none (MODEL READER ACCEPTS: " ++ showHex d ++ ")"]
 
 /-! ### generator -/
 
@@ -270,6 +286,31 @@ def encodeStreamFast (blocks : List Block) (tailFill : Bits) : Option Bytes := d
     bits := bits ++ (← encodeBlockFast bits.size (i + 1 == n) b).toArray
   pure (fromBits (bits.toList ++ padBits tailFill ((8 - bits.size % 8) % 8)))
 
+/-- a further member of a gzip file: its own header fields, its own stream; a quarter of them with EMPTY data (one
+    empty block of any of the three kinds) -/
+def genMember (check : Bool) : G (Option (GzHeader × Bytes × Bytes)) := do
+  let bl ← (do
+    if (← chance 1 4) then
+      let k ← rnd 3
+      if k == 0 then pure [Block.fixed []] else if k == 1 then pure [Block.stored (← genBits 7) []]
+      else pure [Block.dynamic (← genDynHeader []) []]
+    else genBlocks false)
+  let fill ← genBits 7
+  if check && (encodeStreamFast bl fill != encodeStream bl fill ||
+      !bl.all (fun b => match b with | .dynamic h _ => h.strict | _ => true)) then return none
+  let h ← genGzHeader
+  match encodeStreamFast bl fill, renderFast bl with
+  | some stream, some data => pure (some (h, stream, data))
+  | _, _ => pure none
+
+/-- bytes that do not start a member: the first is neither the magic 0x1f nor 0 (Python's reader skips zero padding
+    after a member; RFC 1952 does not allow it, but the tie stays away from that disagreement between references) -/
+def genGarbage : G Bytes := do
+  let b ← rnd 254
+  let b := b + 1
+  let n ← pick [0, 1, 3, 18, 40]
+  pure ((if b == 0x1f then 0x20 else b) :: (← genBytes n 256))
+
 def genLine (big check : Bool) : G (Option String) := do
   let bl ← genBlocks big
   let fill ← genBits 7
@@ -279,7 +320,23 @@ def genLine (big check : Bool) : G (Option String) := do
   | some stream, some data =>
     if (← chance 1 2) then
       let h ← genGzHeader
-      pure (some s!"c12 zinflate kind=gzip data={showHex (gzipMember h stream data)} want={showHex data}")
+      -- about a fifth of the gzip lines: a FILE of 2..4 members (RFC 1952 §2.2); `want` = the data one after another
+      let mut ms : List (GzHeader × Bytes × Bytes) := [(h, stream, data)]
+      if !big && (← chance 1 5) then
+        let extra ← pick [1, 1, 2, 3]
+        for _ in List.range extra do
+          match ← genMember check with
+          | some m => ms := ms ++ [m]
+          | none => return none
+        -- the first member empty now and then
+        if (← chance 1 6) then ms := (← genGzHeader, [3, 0], []) :: ms.drop 1
+      let file := gzipFile ms
+      let want := (ms.map (fun m => m.2.2)).flatten
+      -- a few lines: a valid file (of one or more members) followed by bytes that are not a member
+      if !big && (← chance 1 25) then
+        pure (some s!"c12 zinflate kind=gzip data={showHex (file ++ (← genGarbage))} want=none")
+      else
+        pure (some s!"c12 zinflate kind=gzip data={showHex file} want={showHex want}")
     else
       -- CINFO must cover the distances used (RFC 1950: the window size the compressor promises)
       let need := (List.range 8).foldl (fun best c => if best == 99 && 2 ^ (c + 8) ≥ maxDist bl then c else best) 99
